@@ -553,6 +553,13 @@ class StmtMixin:
                     raise Unsupported("loop variable %s: list of unknown element type (declare locals)" % name)
                 st.env[name] = self.fresh_value(ty, name, st)
             else:
+                if name.endswith("!s"):
+                    cur = st.harr(name)
+                    fr = ctx.fresh("lh%d_%s" % (n, name), cur.sort())
+                    r = z3.Int("r!sg")
+                    st.assume(z3.ForAll([r], z3.And(fr[r] >= -1, fr[r] <= 1), patterns=[fr[r]]))
+                    st.heap[name] = fr
+                    continue
                 if name == "$alloc":
                     a = ctx.fresh("alloc", z3.IntSort())
                     st.assume(a >= st.alloc())
